@@ -1,0 +1,9 @@
+//go:build !verif
+
+package verifhook
+
+import "time"
+
+// Duration returns the replacement for a named interval. Always 0 (keep the
+// production value) without the verif tag.
+func Duration(string) time.Duration { return 0 }
